@@ -130,14 +130,16 @@ static int source_depth(const Block &b, const Source &s) { (void) b; int d = 1; 
 int World::mk_graph(const Op &op) {
     Rng r(op.sub);
     Block b = blk(op.a[0]); if (!b) return 2;
-    std::string P = std::string("g") + std::to_string(r.below(3));
+    std::string P = std::string("g") + std::to_string(((unsigned) op.a[2]) % 3);
     int ok = 0, threw = 0;
+    // the light variant only plants namesakes: a root source, three arrays, a tag and a frame with the names the full structure uses
+    bool lite = ((unsigned) op.a[1]) % 4 == 1;
     auto on = [&]() { return r.chance(3, 4); };
 #define STEP(stmt) do { try { stmt; ok++; } catch (const std::exception &) { threw++; } } while (0)
     // sources
     Source R; if (b.hasSource(P + "_src")) R = b.getSource(P + "_src"); else STEP(R = b.createSource(P + "_src", "t"));
     std::vector<Source> kids, grand;
-    int nk = 2 + (int) r.below(3);
+    int nk = lite ? 0 : 2 + (int) r.below(3);
     if (R) for (int i = 0; i < nk; i++) {
         std::string n = "c" + std::to_string(i);
         Source c; if (R.hasSource(n)) c = R.getSource(n); else STEP(c = R.createSource(n, "t"));
@@ -147,7 +149,7 @@ int World::mk_graph(const Op &op) {
         for (int j = 0; j < ng; j++) { std::string gn = "gc" + std::to_string(j); Source g; if (c.hasSource(gn)) g = c.getSource(gn); else STEP(g = c.createSource(gn, "t")); if (g) grand.push_back(g); }
     }
     // sections
-    Section S; if (f.hasSection(P + "_sec")) S = f.getSection(P + "_sec"); else STEP(S = f.createSection(P + "_sec", "t"));
+    Section S; if (f.hasSection(P + "_sec")) S = f.getSection(P + "_sec"); else if (!lite) STEP(S = f.createSection(P + "_sec", "t"));
     std::vector<Section> subs;
     if (S) for (int i = 0; i < 3; i++) {
         std::string n = "s" + std::to_string(i);
@@ -179,6 +181,7 @@ int World::mk_graph(const Op &op) {
         if (!grand.empty() && on()) STEP(T.addSource(grand[r.below(grand.size())]));
         if (!subs.empty() && on()) STEP(T.metadata(subs[0]));
     }
+    if (lite) { cnt.inc("graph.lite"); arg_class = ok ? "built" : "refused"; return ok ? 0 : (threw ? 1 : 2); }
     // multi-tag
     MultiTag M; if (b.hasMultiTag(P + "_mt")) M = b.getMultiTag(P + "_mt"); else if (pos) STEP(M = b.createMultiTag(P + "_mt", "t", pos));
     if (M) {
